@@ -416,6 +416,37 @@ run_case(Ctx& ctx)
           }
       }
   }
+  // history: the lazily built detector-pair tables must not remember the view mashing in force when they were first used.
+  // The object is given another number of views, used once for a pair -> bin look-up, and then set (back) to the number of
+  // views of this case through the public setter (what SSRB and interpolate_projdata do on a clone); sometimes the object swept
+  // is a clone of it.  Own PRNG, so that the rest of the case is what it was before this was added.
+  if (ss.geom == "Cylindrical")
+    {
+      vf::Rng r3(vf::mix3(ctx.seed, static_cast<uint64_t>(ctx.idx), 0xB17E));
+      if (r3.coin(0.3))
+        {
+          const int maxviews = ss.ndet / 2;
+          std::vector<int> others;
+          for (int d = 1; d <= maxviews; ++d)
+            if (maxviews % d == 0 && maxviews / d != pdi->get_num_views())
+              others.push_back(maxviews / d);
+          if (auto pc = dynamic_cast<ProjDataInfoCylindricalNoArcCorr*>(pdi.get()))
+            if (!others.empty())
+              {
+                const int final_views = pdi->get_num_views();
+                const int other = r3.pick(others);
+                pdi->set_num_views(other);
+                Bin b;
+                (void)pc->get_bin_for_det_pos_pair(
+                    b, DetectionPositionPair<>(DetectionPosition<>(0, 0, 0), DetectionPosition<>(static_cast<unsigned>(ss.ndet / 2), 0, 0), 0));
+                pdi->set_num_views(final_views);
+                if (r3.coin())
+                  pdi = pdi->create_shared_clone();
+                ctx.desc.add("tables_first_used_with_num_views", other);
+                ctx.count("cfg_tables_first_used_with_another_view_mashing");
+              }
+        }
+    }
   const long work = static_cast<long>(ss.ndet) * ss.ndet * ss.nrings * ss.nrings * std::max(1, ss.tof_bins);
   const int mode = work > 6000000L ? 1 : 0;
   ctx.desc.add("factorised", mode);
